@@ -354,6 +354,18 @@ def check_compare(a, b):
         bad.append(("compare-contradicts-rendering", "timestamp(%r) > timestamp(%r) is True but renderings are %r < %r" % (a, b, ra, rb)))
     if lt and gt:
         bad.append(("compare-contradicts-rendering", "timestamp(%r) is both < and > timestamp(%r)" % (a, b)))
+    # an instant obtained by arithmetic from an (already rendered) timestamp is an instant like any other: its rendering must be
+    # the rendering of its value, and comparison must agree with it
+    try:
+        for label, D in (("+", A + (b - a)), ("-", A - (a - b))):
+            fresh = times.timestamp(D.value)
+            if str(D) != str(fresh):
+                bad.append(("derived-timestamp-renders-stale", "timestamp(%r) %s %r has value %r but renders %r (a fresh timestamp of that "
+                            "value renders %r)" % (a, label, abs(b - a), D.value, str(D), str(fresh))))
+            if (D < A and str(D) > ra) or (D > A and str(D) < ra):
+                bad.append(("compare-contradicts-rendering", "derived timestamp %r vs %r: order contradicts renderings" % (str(D), ra)))
+    except Exception as exc:
+        bad.append(("compare-exception", "timestamp arithmetic on timestamp(%r) raised %r" % (a, exc)))
     return bad, ("eq-render" if ra == rb else "lt" if lt else "gt" if gt else "eq-within-epsilon")
 
 
